@@ -2,7 +2,11 @@ package vsync
 
 import (
 	"fmt"
+	"os"
 	"runtime/debug"
+	"strconv"
+	"sync"
+	"time"
 )
 
 type opKind int
@@ -282,8 +286,49 @@ func (e *Explorer) once(prefix []int, trace bool) *Outcome {
 // Replay executes exactly one schedule (choice list); later points take the non-preempting default.
 func (e *Explorer) Replay(choices []int) *Outcome { return e.once(choices, true) }
 
+// FreeRunReps > 0 (environment VERIF_FREERUN) switches every Explorer from exploring to the supplementary race pass:
+// the scenario is built and run FreeRunReps times with its threads as free-running goroutines on the real sync
+// primitives (the shim delegates while no exploration is active), so that a binary built with -race can report
+// unsynchronised accesses, which the cooperative scheduler's hand-offs would hide. Nothing is judged in this mode.
+var FreeRunReps = func() int { n, _ := strconv.Atoi(os.Getenv("VERIF_FREERUN")); return n }()
+
+// FreeRunHangs counts free runs whose threads did not finish within the watchdog time.
+var FreeRunHangs int
+
+func (e *Explorer) freeRun(reps int) {
+	for r := 0; r < reps; r++ {
+		threads, _, _ := e.Build()
+		var wg sync.WaitGroup
+		start := make(chan struct{})
+		for _, f := range threads {
+			f := f
+			wg.Add(1)
+			go func() {
+				defer wg.Done()
+				defer func() { _ = recover() }()
+				<-start
+				f()
+			}()
+		}
+		close(start)
+		done := make(chan struct{})
+		go func() { wg.Wait(); close(done) }()
+		select {
+		case <-done:
+		case <-time.After(20 * time.Second):
+			FreeRunHangs++
+			return
+		}
+		e.Execs++
+	}
+}
+
 // Run explores every schedule within the bound. It returns true when the space was covered completely.
 func (e *Explorer) Run() bool {
+	if FreeRunReps > 0 {
+		e.freeRun(FreeRunReps)
+		return true
+	}
 	stack := [][]int{{}}
 	for len(stack) > 0 {
 		if e.MaxExecs > 0 && e.Execs >= e.MaxExecs {
